@@ -83,6 +83,11 @@ void Decoder::read(std::string &v)
 void Decoder::read(uint8_t *s, size_t n)
 {
     need(n);
+    if (n == 0) {
+        // s may be the data() of an empty container, i.e. a null pointer,
+        // which must not be passed to memcpy even for zero bytes
+        return;
+    }
     std::memcpy(s, cur_, n);
     cur_ += n;
 }
@@ -90,6 +95,9 @@ void Decoder::read(uint8_t *s, size_t n)
 void Decoder::read(char *s, size_t n)
 {
     need(n);
+    if (n == 0) {
+        return;
+    }
     std::memcpy(s, cur_, n);
     cur_ += n;
 }
